@@ -12,6 +12,7 @@ import (
 	"fmt"
 	"os"
 	"path/filepath"
+	"reflect"
 	"runtime"
 	"strings"
 	"sync"
@@ -19,6 +20,7 @@ import (
 	"time"
 
 	nio "github.com/notaryproject/notation-go/internal/io"
+	nlog "github.com/notaryproject/notation-go/log"
 	"github.com/notaryproject/notation-go/plugin"
 	"github.com/notaryproject/notation-go/plugin/proto"
 	"github.com/notaryproject/notation-go/xverif/common"
@@ -42,27 +44,40 @@ type Meta struct {
 	ContractVersions []string `json:"contractVersions"`
 }
 
+// CallFields describes one plugin call: what the plugin does and the caller's context.
+type CallFields struct {
+	Command     string `json:"command"`
+	PluginName  string `json:"pluginName"`
+	Executable  bool   `json:"executable"`
+	ExitCode    int    `json:"exitCode"`
+	Stdout      string `json:"stdout"`
+	StdoutSize  int    `json:"stdoutSize"`
+	Metadata    Meta   `json:"metadata"`
+	Stderr      string `json:"stderr"`
+	StderrSize  int    `json:"stderrSize"`
+	ErrCode     string `json:"errCode"`
+	ErrMessage  bool   `json:"errMessage"`
+	ErrMetadata bool   `json:"errMetadata"`
+	ExitAt      *int   `json:"exitAt"`
+	PipesAt     *int   `json:"pipesAt"`
+	CtxEnd      *int   `json:"ctxEnd"`
+	Cancel      bool   `json:"cancel"`
+	Probes      []int  `json:"probes"`
+}
+
+// Call is a call inside a schedule of overlapping calls.
+type Call struct {
+	CallFields
+	StartAt int `json:"startAt"` // ms after the start of the scenario
+	Exe     int `json:"exe"`     // calls with the same number run the same executable
+}
+
 type Input struct {
-	Kind        string  `json:"kind"`
-	Command     string  `json:"command"`
-	PluginName  string  `json:"pluginName"`
-	Executable  bool    `json:"executable"`
-	ExitCode    int     `json:"exitCode"`
-	Stdout      string  `json:"stdout"`
-	StdoutSize  int     `json:"stdoutSize"`
-	Metadata    Meta    `json:"metadata"`
-	Stderr      string  `json:"stderr"`
-	StderrSize  int     `json:"stderrSize"`
-	ErrCode     string  `json:"errCode"`
-	ErrMessage  bool    `json:"errMessage"`
-	ErrMetadata bool    `json:"errMetadata"`
-	ExitAt      *int    `json:"exitAt"`
-	PipesAt     *int    `json:"pipesAt"`
-	CtxEnd      *int    `json:"ctxEnd"`
-	Cancel      bool    `json:"cancel"`
-	Probes      []int   `json:"probes"`
-	Limit       int64   `json:"limit"`
-	Steps       []WStep `json:"steps"`
+	Kind string `json:"kind"`
+	CallFields
+	Limit int64   `json:"limit"`
+	Steps []WStep `json:"steps"`
+	Calls []Call  `json:"calls"`
 }
 
 type WOut struct {
@@ -70,15 +85,25 @@ type WOut struct {
 	Err string `json:"err"`
 }
 
-type Obs struct {
+type CallObs struct {
 	Result    string `json:"result"`
 	Code      string `json:"code"`
 	WithinCap bool   `json:"withinCap"`
 	InTime    bool   `json:"inTime"`
 	DoneBy    []bool `json:"doneBy"`
-	Wouts     []WOut `json:"wouts"`
-	Passed    int    `json:"passed"`
-	Remaining int64  `json:"remaining"`
+	Own       bool   `json:"own"`
+}
+
+type Obs struct {
+	CallObs
+	Multi     []CallObs `json:"multi"`
+	Wouts     []WOut    `json:"wouts"`
+	Passed    int       `json:"passed"`
+	Remaining int64     `json:"remaining"`
+}
+
+func obsOf(co CallObs) Obs {
+	return Obs{CallObs: co, Multi: []CallObs{}, Wouts: []WOut{}}
 }
 
 // constants of the property (the Lean side has the same ones in Model/C17.lean)
@@ -108,9 +133,15 @@ func goodMeta(name string) Meta {
 }
 
 func newCall(command string) Input {
-	return Input{Kind: "call", Command: command, PluginName: "foo", Executable: true, Stdout: "reply",
+	return Input{Kind: "call", CallFields: CallFields{Command: command, PluginName: "foo", Executable: true, Stdout: "reply",
 		Metadata: goodMeta("foo"), Stderr: "empty", ExitAt: ip(0), PipesAt: ip(0), CtxEnd: ip(30000),
-		Probes: []int{}, Steps: []WStep{}}
+		Probes: []int{}}, Steps: []WStep{}, Calls: []Call{}}
+}
+
+func newMulti(calls []Call) Input {
+	in := newCall("getMetadata")
+	in.Kind, in.Calls = "multi", calls
+	return in
 }
 
 func newWriter(limit int64, steps []WStep) Input {
@@ -125,16 +156,26 @@ func newWriter(limit int64, steps []WStep) Input {
 // ---- concretisation: abstract case -> script -------------------------------------------------
 
 type job struct {
-	in     Input
+	in     CallFields
 	script string // path of the plugin executable
-	out    Obs
+	lag    time.Duration
+	// what the call's own process prints (for the `own` observation)
+	outPre, outSuf string
+	outPad         int
+	errPre, errSuf string
+	errPad         int
+	out            CallObs
 }
+
+func (j *job) ownStdout() []byte { return []byte(j.outPre + strings.Repeat("a", j.outPad) + j.outSuf) }
+func (j *job) ownStderr() []byte { return []byte(j.errPre + strings.Repeat("a", j.errPad) + j.errSuf) }
 
 type gen struct {
 	c     *common.Ctx
 	dir   string
 	blobs map[string]string
 	n     int
+	mark  string // distinguishes the output of one call from that of every other call
 }
 
 func (g *gen) pick(xs ...string) string { return xs[g.c.Rand.Intn(len(xs))] }
@@ -171,6 +212,7 @@ func jsonObj(kv ...any) string {
 }
 
 // metaJSON renders the metadata reply; an empty field is either left out, printed empty or null.
+// A present description carries the call's mark.
 func (g *gen) metaJSON(m Meta) string {
 	var kv []any
 	str := func(key, v string) {
@@ -198,7 +240,11 @@ func (g *gen) metaJSON(m Meta) string {
 		}
 	}
 	str("name", m.Name)
-	str("description", m.Description)
+	if m.Description != "" {
+		str("description", m.Description+" #"+g.mark)
+	} else {
+		str("description", "")
+	}
 	str("version", m.Version)
 	str("url", m.URL)
 	list("supportedContractVersions", m.ContractVersions)
@@ -207,7 +253,7 @@ func (g *gen) metaJSON(m Meta) string {
 }
 
 // reply returns the valid reply of a command as (prefix, suffix) around a string that may be padded.
-func (g *gen) reply(in Input) (string, string) {
+func (g *gen) reply(in CallFields) (string, string) {
 	switch in.Command {
 	case "getMetadata":
 		if in.StdoutSize == 0 {
@@ -216,19 +262,19 @@ func (g *gen) reply(in Input) (string, string) {
 		m := in.Metadata
 		rest := jsonObj("name", m.Name, "version", m.Version, "url", m.URL,
 			"supportedContractVersions", m.ContractVersions, "capabilities", m.Capabilities)
-		return `{"description":"` + m.Description, `",` + rest[1:]
+		return `{"description":"` + m.Description + " #" + g.mark, `",` + rest[1:]
 	case "describeKey":
-		return `{"keyId":"k`, `","keySpec":"RSA-2048"}`
+		return `{"keyId":"k` + g.mark, `","keySpec":"RSA-2048"}`
 	case "generateSignature":
-		return `{"keyId":"k`, `","signature":"c2ln","signingAlgorithm":"RSASSA-PSS-SHA-256","certificateChain":["Y2VydA=="]}`
+		return `{"keyId":"k` + g.mark, `","signature":"c2ln","signingAlgorithm":"RSASSA-PSS-SHA-256","certificateChain":["Y2VydA=="]}`
 	case "generateEnvelope":
-		return `{"signatureEnvelope":"ZW52","annotations":{"a":"b"},"signatureEnvelopeType":"application/jose+json`, `"}`
+		return `{"signatureEnvelope":"ZW52","annotations":{"a":"` + g.mark + `"},"signatureEnvelopeType":"application/jose+json`, `"}`
 	default:
-		return `{"verificationResults":{"SIGNATURE_VERIFIER.TRUSTED_IDENTITY":{"success":true,"reason":"ok`, `"}},"processedAttributes":["x"]}`
+		return `{"verificationResults":{"SIGNATURE_VERIFIER.TRUSTED_IDENTITY":{"success":true,"reason":"ok` + g.mark, `"}},"processedAttributes":["x"]}`
 	}
 }
 
-func (g *gen) stdoutText(in Input) string {
+func (g *gen) stdoutText(in CallFields) string {
 	switch in.Stdout {
 	case "emptyObject":
 		if in.Command != "getMetadata" && g.c.Rand.Intn(2) == 0 {
@@ -247,8 +293,9 @@ func (g *gen) stdoutText(in Input) string {
 		}
 		return g.pick(`[]`, `"text"`, `42`, `true`, specific[in.Command], specific[in.Command])
 	case "notJson":
-		p, s := g.reply(Input{Command: in.Command, Metadata: goodMeta("foo")})
-		return g.pick("not json", `{"name":`, p+s+" trailing", `{'single':1}`, p+s+p+s, "\n", "\x00")
+		p, s := g.reply(CallFields{Command: in.Command, Metadata: goodMeta(in.PluginName)})
+		return g.pick("not json", `{"name":`, p+s+" trailing", `{'single':1}`, p+s+p+s, "\n", "\x00",
+			p+s+"\nplugin: done", p+s+"}", p+s+"\n"+p[:len(p)/2])
 	case "empty":
 		return ""
 	}
@@ -256,21 +303,26 @@ func (g *gen) stdoutText(in Input) string {
 	return p + s
 }
 
-func (g *gen) errorObject(in Input) (string, string) {
-	if in.StderrSize > 0 {
-		// errorMessage last so that it can be padded
+// errorObject renders the error object as (prefix, suffix) around a string that may be padded:
+// the error message, or - without a message - a value of the error metadata.
+func (g *gen) errorObject(in CallFields) (string, string) {
+	if in.StderrSize > 0 && (in.ErrMessage || in.ErrMetadata) {
 		var kv []any
 		if in.ErrCode != "" {
 			kv = append(kv, "errorCode", in.ErrCode)
 		}
-		if in.ErrMetadata {
-			kv = append(kv, "errorMetadata", map[string]string{"k": "v"})
+		if in.ErrMessage && in.ErrMetadata {
+			kv = append(kv, "errorMetadata", map[string]string{"k": "v" + g.mark})
 		}
 		head := jsonObj(kv...)
-		if len(kv) == 0 {
-			return `{"errorMessage":"boom`, `"}`
+		head = head[:len(head)-1]
+		if len(kv) > 0 {
+			head += ","
 		}
-		return head[:len(head)-1] + `,"errorMessage":"boom`, `"}`
+		if in.ErrMessage {
+			return head + `"errorMessage":"boom ` + g.mark + " ", `"}`
+		}
+		return head + `"errorMetadata":{"k":"v` + g.mark + " ", `"}}`
 	}
 	var kv []any
 	if in.ErrCode != "" {
@@ -279,13 +331,13 @@ func (g *gen) errorObject(in Input) (string, string) {
 		kv = append(kv, "errorCode", "")
 	}
 	if in.ErrMessage {
-		kv = append(kv, "errorMessage", g.pick("boom", "key not found", "{\"nested\":1}"))
+		kv = append(kv, "errorMessage", g.pick("boom", "key not found", "{\"nested\":1}")+" "+g.mark)
 	} else if g.c.Rand.Intn(3) == 0 {
 		kv = append(kv, "errorMessage", "")
 	}
 	if in.ErrMetadata {
 		if g.c.Rand.Intn(2) == 0 {
-			kv = append(kv, "errorMetadata", map[string]string{"k": "v"})
+			kv = append(kv, "errorMetadata", map[string]string{"k": "v" + g.mark})
 		} else {
 			kv = append(kv, "errorMetadata", map[string]string{})
 		}
@@ -305,7 +357,7 @@ func (g *gen) errorObject(in Input) (string, string) {
 	return s, ""
 }
 
-func (g *gen) stderrText(in Input) string {
+func (g *gen) stderrText(in CallFields) string {
 	switch in.Stderr {
 	case "errorObject":
 		p, s := g.errorObject(in)
@@ -320,37 +372,34 @@ func (g *gen) stderrText(in Input) string {
 
 func secs(ms int) string { return fmt.Sprintf("%d.%03d", ms/1000, ms%1000) }
 
-// emitter of `size` bytes: prefix + padding + suffix
-func padded(prefix, suffix string, size int, redirect string) string {
-	pad := size - len(prefix) - len(suffix)
-	if pad < 0 {
-		pad = 0
-	}
+// emitter of prefix + pad bytes + suffix
+func padded(prefix, suffix string, pad int, redirect string) string {
 	return fmt.Sprintf("printf '%%s' '%s'%s\nhead -c %d /dev/zero | tr '\\000' 'a'%s\nprintf '%%s' '%s'%s\n",
 		prefix, redirect, pad, redirect, suffix, redirect)
 }
 
-// add concretises one abstract call case into a plugin script (nothing is executed yet).
-func (g *gen) add(in Input) *job {
+// body concretises one abstract call into the shell commands of its plugin process and a job
+// that knows what this process prints (nothing is written or executed yet).
+func (g *gen) body(in CallFields) (string, *job) {
 	g.n++
-	dir := filepath.Join(g.dir, fmt.Sprintf("p%05d", g.n))
-	if err := os.MkdirAll(dir, 0o755); err != nil {
-		panic(err)
-	}
+	g.mark = fmt.Sprint(g.n)
+	j := &job{in: in}
 	var sb strings.Builder
-	sb.WriteString("#!/bin/sh\n")
-	fmt.Fprintf(&sb, "[ \"$1\" = \"%s\" ] || exit 97\n", wireCommand[in.Command])
 	// stderr first: a reader that stops (cap) must not keep the script from printing the rest
-	if in.Stderr == "errorObject" && in.ErrMessage && in.StderrSize > 0 {
-		p, s := g.errorObject(in)
-		sb.WriteString(padded(p, s, in.StderrSize, " >&2"))
+	if in.Stderr == "errorObject" && (in.ErrMessage || in.ErrMetadata) && in.StderrSize > 0 {
+		j.errPre, j.errSuf = g.errorObject(in)
+		j.errPad = max(in.StderrSize-len(j.errPre)-len(j.errSuf), 0)
+		sb.WriteString(padded(j.errPre, j.errSuf, j.errPad, " >&2"))
 	} else if t := g.stderrText(in); t != "" {
+		j.errPre = t
 		fmt.Fprintf(&sb, "cat '%s' >&2\n", g.blob(t))
 	}
 	if in.Stdout == "reply" && in.StdoutSize > 0 {
-		p, s := g.reply(in)
-		sb.WriteString(padded(p, s, in.StdoutSize, ""))
+		j.outPre, j.outSuf = g.reply(in)
+		j.outPad = max(in.StdoutSize-len(j.outPre)-len(j.outSuf), 0)
+		sb.WriteString(padded(j.outPre, j.outSuf, j.outPad, ""))
 	} else if t := g.stdoutText(in); t != "" {
+		j.outPre = t
 		fmt.Fprintf(&sb, "cat '%s'\n", g.blob(t))
 	}
 	e, p := *in.ExitAt, *in.PipesAt
@@ -366,20 +415,108 @@ func (g *gen) add(in Input) *job {
 		fmt.Fprintf(&sb, "sleep %s\n", secs(e))
 	}
 	fmt.Fprintf(&sb, "exit %d\n", in.ExitCode)
+	return sb.String(), j
+}
+
+func (g *gen) writeScript(tag, pluginName, text string, executable bool) string {
+	dir := filepath.Join(g.dir, tag)
+	if err := os.MkdirAll(dir, 0o755); err != nil {
+		panic(err)
+	}
 	path := filepath.Join(dir, "notation-"+strings.Map(func(r rune) rune {
 		if r == '/' || r == 0 {
 			return '_'
 		}
 		return r
-	}, in.PluginName))
+	}, pluginName))
 	mode := os.FileMode(0o755)
-	if !in.Executable {
+	if !executable {
 		mode = 0o644
 	}
-	if err := os.WriteFile(path, []byte(sb.String()), mode); err != nil {
+	if err := os.WriteFile(path, []byte(text), mode); err != nil {
 		panic(err)
 	}
-	return &job{in: in, script: path}
+	return path
+}
+
+// add concretises one abstract call case into a plugin script (nothing is executed yet).
+func (g *gen) add(in Input) *job {
+	b, j := g.body(in.CallFields)
+	text := fmt.Sprintf("#!/bin/sh\n[ \"$1\" = \"%s\" ] || exit 97\n%s", wireCommand[in.Command], b)
+	j.script = g.writeScript(fmt.Sprintf("p%05d", g.n), in.PluginName, text, in.Executable)
+	j.lag = time.Millisecond
+	return j
+}
+
+// a schedule of overlapping calls
+type multiJob struct {
+	in   Input
+	jobs []*job
+}
+
+// addMulti concretises a schedule: one script per executable, which dispatches on the protocol
+// command to the behaviour of the call that uses this command on this executable (calls that
+// share an executable must therefore use different commands).
+func (g *gen) addMulti(calls []Call, lag time.Duration) *multiJob {
+	mj := &multiJob{in: newMulti(calls)}
+	bodies := map[int]*strings.Builder{}
+	used := map[string]bool{}
+	var order []int
+	for _, c := range calls {
+		key := fmt.Sprint(c.Exe, "/", c.Command)
+		if used[key] {
+			panic("two calls of a schedule use the same command on the same executable")
+		}
+		used[key] = true
+		b, j := g.body(c.CallFields)
+		j.lag = lag
+		mj.jobs = append(mj.jobs, j)
+		sb, ok := bodies[c.Exe]
+		if !ok {
+			sb = &strings.Builder{}
+			sb.WriteString("#!/bin/sh\ncase \"$1\" in\n")
+			bodies[c.Exe] = sb
+			order = append(order, c.Exe)
+		}
+		fmt.Fprintf(sb, "%s)\n%s;;\n", wireCommand[c.Command], b)
+	}
+	tag := fmt.Sprintf("m%05d", g.n)
+	paths := map[int]string{}
+	for _, e := range order {
+		name, exec := "foo", true
+		for _, c := range calls {
+			if c.Exe == e {
+				name, exec = c.PluginName, c.Executable
+			}
+		}
+		paths[e] = g.writeScript(fmt.Sprintf("%s-%d", tag, e), name, bodies[e].String()+"*) exit 97;;\nesac\n", exec)
+	}
+	for k, c := range calls {
+		mj.jobs[k].script = paths[c.Exe]
+	}
+	return mj
+}
+
+func (m *multiJob) run() {
+	var wg sync.WaitGroup
+	start := time.Now()
+	for k, j := range m.jobs {
+		wg.Add(1)
+		go func(j *job, at int) {
+			defer wg.Done()
+			time.Sleep(time.Until(start.Add(time.Duration(at) * time.Millisecond)))
+			j.run()
+		}(j, m.in.Calls[k].StartAt)
+	}
+	wg.Wait()
+}
+
+func (m *multiJob) obs() Obs {
+	o := obsOf(CallObs{Result: "ok", WithinCap: true, InTime: true, DoneBy: []bool{}, Own: true})
+	for _, j := range m.jobs {
+		o.Multi = append(o.Multi, j.out)
+	}
+	return o
 }
 
 // ---- execution on the real code ----------------------------------------------------------------
@@ -407,8 +544,15 @@ func classify(err error) (string, string) {
 func returnedSize(resp any, err error) int {
 	if err != nil {
 		var re proto.RequestError
-		if errors.As(err, &re) && re.Err != nil {
-			return len(re.Err.Error())
+		if errors.As(err, &re) {
+			n := 0
+			if re.Err != nil {
+				n = len(re.Err.Error())
+			}
+			for k, v := range re.Metadata {
+				n += len(k) + len(v)
+			}
+			return n
 		}
 		return 0
 	}
@@ -434,9 +578,64 @@ func returnedSize(resp any, err error) int {
 	return n
 }
 
+// laggard is a caller-supplied logger (log.WithLogger) that is slow on the lines `run` logs
+// between the end of the plugin process and the decoding of what it printed.
+type laggard struct {
+	nlog.Logger
+	lag time.Duration
+}
+
+func (l laggard) wait(format string) {
+	if strings.Contains(format, "response") || strings.Contains(format, "execution status") {
+		time.Sleep(l.lag)
+	}
+}
+func (l laggard) Debugf(format string, args ...interface{}) { l.wait(format) }
+func (l laggard) Errorf(format string, args ...interface{}) { l.wait(format) }
+
+func newResp(command string) any {
+	switch command {
+	case "getMetadata":
+		return &fw.GetMetadataResponse{}
+	case "describeKey":
+		return &fw.DescribeKeyResponse{}
+	case "generateSignature":
+		return &fw.GenerateSignatureResponse{}
+	case "generateEnvelope":
+		return &fw.GenerateEnvelopeResponse{}
+	}
+	return &fw.VerifySignatureResponse{}
+}
+
+// own reports whether what came back is, field by field, what this call's own process printed.
+func (j *job) own(resp any, err error) bool {
+	if err == nil {
+		exp := newResp(j.in.Command)
+		if json.Unmarshal(j.ownStdout(), exp) != nil {
+			return false
+		}
+		return reflect.DeepEqual(resp, exp)
+	}
+	var re proto.RequestError
+	if errors.As(err, &re) {
+		// decoded here with a plain structure, not with the code under test
+		var exp struct {
+			Code     string            `json:"errorCode"`
+			Message  string            `json:"errorMessage"`
+			Metadata map[string]string `json:"errorMetadata"`
+		}
+		if json.Unmarshal(j.ownStderr(), &exp) != nil {
+			return false
+		}
+		msgOK := (re.Err == nil && exp.Message == "") || (re.Err != nil && re.Err.Error() == exp.Message)
+		return string(re.Code) == exp.Code && msgOK && reflect.DeepEqual(re.Metadata, exp.Metadata)
+	}
+	return true
+}
+
 func (j *job) run() {
 	in := j.in
-	o := Obs{DoneBy: []bool{}, Wouts: []WOut{}}
+	o := CallObs{DoneBy: []bool{}, Own: true}
 	p, err := plugin.NewCLIPlugin(context.Background(), in.PluginName, j.script)
 	if err != nil {
 		o.Result = "other"
@@ -445,6 +644,9 @@ func (j *job) run() {
 	}
 	start := time.Now()
 	ctx := context.Background()
+	if j.lag > 0 {
+		ctx = nlog.WithLogger(ctx, laggard{nlog.Discard, j.lag})
+	}
 	if in.CtxEnd != nil {
 		d := time.Duration(*in.CtxEnd) * time.Millisecond
 		var cancel context.CancelFunc
@@ -462,6 +664,12 @@ func (j *job) run() {
 		heapOK = watchHeap()
 	}
 	var resp any
+	defer func() {
+		// a crash inside the library (seen when two calls share a buffer): not a contained call
+		if r := recover(); r != nil {
+			j.out = CallObs{Result: "other", DoneBy: make([]bool, len(in.Probes)), Own: false}
+		}
+	}()
 	switch in.Command {
 	case "getMetadata":
 		resp, err = p.GetMetadata(ctx, &fw.GetMetadataRequest{})
@@ -477,6 +685,7 @@ func (j *job) run() {
 	elapsed := time.Since(start)
 	o.Result, o.Code = classify(err)
 	o.WithinCap = heapOK() && returnedSize(resp, err) <= specCap
+	o.Own = j.own(resp, err)
 	o.InTime = true
 	if in.CtxEnd != nil {
 		o.InTime = elapsed <= time.Duration(*in.CtxEnd+specDelayMs+marginMs)*time.Millisecond
@@ -518,9 +727,22 @@ func watchHeap() func() bool {
 	}
 }
 
-func runAll(jobs []*job, workers int) {
+type task interface{ run() }
+
+func tasks[T task](xs []T) []task {
+	out := make([]task, len(xs))
+	for i, x := range xs {
+		out[i] = x
+	}
+	return out
+}
+
+func runAll(jobs []task, workers int) {
+	if len(jobs) == 0 {
+		return
+	}
 	var wg sync.WaitGroup
-	ch := make(chan *job)
+	ch := make(chan task)
 	for w := 0; w < workers; w++ {
 		wg.Add(1)
 		go func() {
@@ -561,7 +783,7 @@ func (s *scripted) Write(p []byte) (int, error) {
 func runWriter(in Input) Obs {
 	u := &scripted{}
 	lw := nio.LimitWriter(u, in.Limit)
-	o := Obs{Result: "ok", WithinCap: true, InTime: true, DoneBy: []bool{}, Wouts: []WOut{}}
+	o := obsOf(CallObs{Result: "ok", WithinCap: true, InTime: true, DoneBy: []bool{}, Own: true})
 	buf := make([]byte, 0)
 	for _, st := range in.Steps {
 		if cap(buf) < st.Len {
@@ -620,7 +842,9 @@ func stderrVariants() []stderrVariant {
 	return v
 }
 
-func (sv stderrVariant) apply(in *Input) {
+func (sv stderrVariant) apply(in *Input) { sv.apply2(&in.CallFields) }
+
+func (sv stderrVariant) apply2(in *CallFields) {
 	in.Stderr, in.ErrCode, in.ErrMessage, in.ErrMetadata = sv.kind, sv.code, sv.msg, sv.mdata
 }
 
@@ -659,12 +883,12 @@ func metaVariants() []Meta {
 	return out
 }
 
-func (g *gen) count(in Input, o Obs) {
+func callInput(cf CallFields) Input {
+	return Input{Kind: "call", CallFields: cf, Steps: []WStep{}, Calls: []Call{}}
+}
+
+func (g *gen) count(in Input, o CallObs) {
 	c := g.c
-	c.Count("kind=" + in.Kind)
-	if in.Kind != "call" {
-		return
-	}
 	c.Count("command=" + in.Command)
 	c.Count("result=" + o.Result)
 	c.Count("stdout=" + in.Stdout)
@@ -851,6 +1075,16 @@ func Run(c *common.Ctx) error {
 			bigCase{"getMetadata", 300000000, 0, 0, false}, bigCase{"describeKey", 0, 300000000, 1, true},
 			bigCase{"generateEnvelope", 536870912, 0, 0, false}, bigCase{"verifySignature", 0, 536870912, 1, true})
 	}
+	if !c.Thorough() {
+		// the cap itself, from both sides, on both streams
+		bigs = append(bigs, bigCase{"describeKey", specCap, 0, 0, false}, bigCase{"getMetadata", specCap + 1, 0, 0, false},
+			bigCase{"generateSignature", 0, specCap, 1, true}, bigCase{"verifySignature", 0, specCap + 1, 2, true})
+	} else {
+		for i, cmd := range commands {
+			bigs = append(bigs, bigCase{cmd, specCap - 1, 0, 0, false}, bigCase{cmd, 0, specCap - 1, 1 + i%2, true},
+				bigCase{cmd, 16<<20 + i, 0, 0, false}, bigCase{cmd, 0, 32<<20 + 1 + i, 1, true})
+		}
+	}
 	for _, b := range bigs {
 		in := newCall(b.cmd)
 		in.StdoutSize, in.StderrSize, in.ExitCode = b.out, b.err, b.exit
@@ -860,14 +1094,174 @@ func Run(c *common.Ctx) error {
 		big = append(big, g.add(in))
 	}
 
-	// ---- execute: timing cases alone (they sleep), then the rest on a pool, big ones one by one ---
-	runAll(timed, min(len(timed), 48))
-	runAll(imm, 8)
-	runAll(big, 1)
-	for _, js := range [][]*job{imm, timed, big} {
+	// ---- C': the size dimension below the cap: replies and structured errors of 64 KiB .. some MiB ----
+	var mid []*job
+	sizes := []int{4096, 65535, 65536, 65537, 100000, 1<<20 - 1, 1<<20 + 1, 4<<20 + 3}
+	if c.Thorough() {
+		sizes = append(sizes, 32768, 131073, 262144, 2<<20, 8<<20+1)
+	}
+	codes := errorCodes()
+	for si, size := range sizes {
+		for ci, cmd := range commands {
+			// a large valid reply
+			in := newCall(cmd)
+			in.StdoutSize = size
+			mid = append(mid, g.add(in))
+			// a failing plugin with a large valid structured error, every code
+			in = newCall(cmd)
+			in.ExitCode, in.StderrSize = 1+(si+ci)%2, size
+			stderrVariant{"errorObject", codes[(si+ci)%len(codes)], true, ci%2 == 0}.apply(&in)
+			mid = append(mid, g.add(in))
+		}
+		for ci, code := range codes {
+			in := newCall(commands[(si+ci)%len(commands)])
+			in.ExitCode, in.StderrSize = 1, size
+			stderrVariant{"errorObject", code, true, false}.apply(&in)
+			mid = append(mid, g.add(in))
+		}
+		// the bulk in the error metadata instead of the message; without a code
+		in := newCall(commands[si%len(commands)])
+		in.ExitCode, in.StderrSize = 2, size
+		stderrVariant{"errorObject", string(proto.ErrorCodeAccessDenied), false, true}.apply(&in)
+		mid = append(mid, g.add(in))
+		in = newCall(commands[(si+1)%len(commands)])
+		in.ExitCode, in.StderrSize = 1, size
+		stderrVariant{"errorObject", "", true, false}.apply(&in)
+		mid = append(mid, g.add(in))
+		// both streams large: success ignores stderr, failure ignores stdout
+		for _, exit := range []int{0, 1} {
+			in = newCall(commands[(si+2)%len(commands)])
+			in.ExitCode, in.StdoutSize, in.StderrSize = exit, size, size+1
+			stderrVariant{"errorObject", string(proto.ErrorCodeThrottled), true, false}.apply(&in)
+			mid = append(mid, g.add(in))
+		}
+	}
+
+	// ---- E: schedules of overlapping calls (same / different executables, mixed deadlines) -----------
+	mk := func(cmd string, exe, startAt int, mods ...func(*Call)) Call {
+		cl := Call{CallFields: newCall(cmd).CallFields, StartAt: startAt, Exe: exe}
+		for _, m := range mods {
+			m(&cl)
+		}
+		return cl
+	}
+	// a call that keeps its plugin process running far beyond every bound of the other calls
+	// (a call with a 1 s deadline issued 0.25 s later must be back by 0.25 + 1 + 5 + 3 s)
+	hang := func(cl *Call) { cl.ExitAt, cl.CtxEnd, cl.Probes = ip(10500), nil, []int{10000, 13000} }
+	hangKilled := func(cl *Call) { cl.ExitAt, cl.CtxEnd, cl.Probes = ip(15000), ip(10300), []int{10000, 13000} }
+	holder := func(cl *Call) { cl.PipesAt, cl.CtxEnd, cl.Probes = ip(held), nil, []int{4500, 7500} }
+	short := func(cl *Call) { cl.CtxEnd, cl.Probes = ip(1000), []int{3500} }
+	shortCancel := func(cl *Call) { cl.CtxEnd, cl.Cancel, cl.Probes = ip(1200), true, []int{3500} }
+	shortSlow := func(cl *Call) { cl.ExitAt, cl.CtxEnd, cl.Probes = ip(14000), ip(400), []int{200, 3000} }
+	shortHolder := func(cl *Call) { cl.PipesAt, cl.CtxEnd, cl.Probes = ip(held), ip(1000), []int{4500, 7500} }
+	fails := func(code string, exit int) func(*Call) {
+		return func(cl *Call) {
+			cl.ExitCode = exit
+			stderrVariant{"errorObject", code, true, false}.apply2(&cl.CallFields)
+		}
+	}
+	wrongName := func(cl *Call) { cl.Metadata = goodMeta("bar") }
+	var slowMulti, fastMulti []*multiJob
+	const lag = 40 * time.Millisecond
+	slowSchedules := [][]Call{
+		// queued behind a hanging call to the same executable
+		{mk("describeKey", 0, 0, hang), mk("getMetadata", 0, 200, short)},
+		{mk("generateSignature", 0, 0, hangKilled), mk("describeKey", 0, 200, shortCancel, fails(string(proto.ErrorCodeTimeout), 1))},
+		// ... to another executable
+		{mk("describeKey", 0, 0, hang), mk("describeKey", 1, 200, short)},
+		// two hanging calls, the third one is short
+		{mk("describeKey", 0, 0, hang), mk("generateEnvelope", 0, 50, hang), mk("verifySignature", 0, 250, short)},
+		{mk("describeKey", 0, 0, hang), mk("describeKey", 1, 50, hangKilled), mk("describeKey", 2, 250, shortCancel)},
+		// the short call is itself too slow / leaves a descendant behind
+		{mk("generateEnvelope", 0, 0, hang), mk("generateSignature", 0, 150, shortSlow)},
+		{mk("generateEnvelope", 0, 0, hang), mk("generateSignature", 0, 150, shortHolder, fails(string(proto.ErrorCodeGeneric), 2))},
+		// the first call exits at once but its descendant holds the pipes
+		{mk("verifySignature", 0, 0, holder), mk("getMetadata", 0, 200, short), mk("describeKey", 1, 300, short, wrongName)},
+		// the short one comes first
+		{mk("getMetadata", 0, 0, short), mk("describeKey", 0, 100, hang), mk("getMetadata", 1, 150, shortCancel, wrongName)},
+	}
+	if c.Thorough() {
+		behaviours := []func(*Call){hang, hangKilled, holder, short, shortCancel, shortSlow, shortHolder}
+		for r := 0; r < 24; r++ {
+			n := 2 + c.Rand.Intn(2)
+			perm := c.Rand.Perm(len(commands))
+			var cs []Call
+			for k := 0; k < n; k++ {
+				mods := []func(*Call){behaviours[c.Rand.Intn(len(behaviours))]}
+				if k == 0 {
+					mods[0] = behaviours[c.Rand.Intn(3)]
+				}
+				if c.Rand.Intn(3) == 0 {
+					mods = append(mods, fails(codes[c.Rand.Intn(len(codes))], 1+c.Rand.Intn(2)))
+				}
+				cs = append(cs, mk(commands[perm[k]], c.Rand.Intn(2), k*100+c.Rand.Intn(100), mods...))
+			}
+			slowSchedules = append(slowSchedules, cs)
+		}
+	}
+	for _, cs := range slowSchedules {
+		for k := range cs {
+			if cs[k].CtxEnd != nil && *cs[k].CtxEnd < *cs[k].ExitAt {
+				cs[k].ExitCode = 0
+			}
+		}
+		slowMulti = append(slowMulti, g.addMulti(cs, lag))
+	}
+	// quick calls that overlap closely, with different replies and errors (nothing may leak between them)
+	nfast := 40
+	if c.Thorough() {
+		nfast = 400
+	}
+	fastMods := []func(*Call){
+		func(*Call) {}, func(*Call) {}, wrongName,
+		fails(string(proto.ErrorCodeAccessDenied), 1), fails(string(proto.ErrorCodeValidation), 2), fails("", 1),
+		func(cl *Call) { cl.ExitCode = 1 },
+		func(cl *Call) { cl.ExitCode, cl.Stderr = 2, "notJson" },
+		func(cl *Call) { cl.Stdout = "emptyObject" },
+		func(cl *Call) { cl.Stdout = "notJson" },
+		func(cl *Call) { cl.StdoutSize = 20000 },
+		func(cl *Call) { cl.ExitCode, cl.StderrSize = 1, 20000; fails(string(proto.ErrorCodeThrottled), 1)(cl) },
+	}
+	for r := 0; r < nfast; r++ {
+		n := 2 + c.Rand.Intn(2)
+		perm := c.Rand.Perm(len(commands))
+		sameExe := c.Rand.Intn(2) == 0
+		var cs []Call
+		for k := 0; k < n; k++ {
+			exe := k
+			if sameExe {
+				exe = 0
+			}
+			cmd := commands[perm[k]]
+			if r%4 == 0 {
+				cmd = "getMetadata" // several metadata calls at once (then on different executables)
+				exe = k
+			}
+			cs = append(cs, mk(cmd, exe, k*(5+c.Rand.Intn(15)), fastMods[c.Rand.Intn(len(fastMods))]))
+		}
+		fastMulti = append(fastMulti, g.addMulti(cs, lag))
+	}
+
+	// ---- execute: everything that sleeps first and alone, then the rest on a pool, big ones one by one ---
+	runAll(append(tasks(timed), tasks(slowMulti)...), 64)
+	runAll(tasks(fastMulti), 4)
+	runAll(append(tasks(imm), tasks(mid)...), 8)
+	runAll(tasks(big), 1)
+	for _, js := range [][]*job{imm, timed, mid, big} {
 		for _, j := range js {
-			c.Emit(j.in, j.out)
-			g.count(j.in, j.out)
+			c.Emit(callInput(j.in), obsOf(j.out))
+			g.count(callInput(j.in), j.out)
+			c.Count("kind=call")
+		}
+	}
+	for _, ms := range [][]*multiJob{slowMulti, fastMulti} {
+		for _, m := range ms {
+			c.Emit(m.in, m.obs())
+			c.Count("kind=multi")
+			c.Count(fmt.Sprintf("multi-calls=%d", len(m.jobs)))
+			for _, j := range m.jobs {
+				c.Count("multi-result=" + j.out.Result)
+			}
 		}
 	}
 
@@ -933,7 +1327,8 @@ func Run(c *common.Ctx) error {
 		}
 	}
 
-	c.Note("real CLIPlugin against generated #!/bin/sh plugins: %d immediate cases (5 commands x exit 0/1/2 x %d stdout kinds x %d stderr variants, %d metadata variants, all 64 subsets of the mandatory fields, non-executable file, other plugin names), %d timing cases in parallel (deadline / cancellation, killed child, descendants holding the pipes), %d cases around the 64 MiB cap; internal/io.LimitedWriter against scripted underlying writers: all sequences of <=2 writes over a small grid plus %d random sequences",
-		len(imm), len(outKinds), len(svs), len(metaVariants()), len(timed), len(big), nrand)
+	c.Note("real CLIPlugin against generated #!/bin/sh plugins: %d immediate cases (5 commands x exit 0/1/2 x %d stdout kinds x %d stderr variants, %d metadata variants, all 64 subsets of the mandatory fields, non-executable file, other plugin names), %d timing cases in parallel (deadline / cancellation, killed child, descendants holding the pipes), %d cases in the size dimension (valid replies and valid structured errors of %d sizes from 4 KiB to some MiB, every error code, bulk in message or metadata), %d cases at and beyond the 64 MiB cap; %d schedules of 2-3 overlapping calls on the same / different executables (%d with a hanging call and a short-deadline call, %d closely overlapping quick calls); every call under a slow caller-supplied logger and with its output compared to what its own process printed; internal/io.LimitedWriter against scripted underlying writers: all sequences of <=2 writes over a small grid plus %d random sequences",
+		len(imm), len(outKinds), len(svs), len(metaVariants()), len(timed), len(mid), len(sizes), len(big),
+		len(slowMulti)+len(fastMulti), len(slowMulti), len(fastMulti), nrand)
 	return nil
 }
